@@ -160,7 +160,17 @@ def order(cfg, crate, rep):
         ty = node.get("ty", "")
         if node["k"] in ("Call", "MethodCall") and ty.startswith("std::result::Result<") and (node.get("callee") or "") not in ("Ok", "Err"):
             how = c01._consumed(node, ps)
-            rep.ob("C18.order", key + "|propagated|" + (node.get("callee") or node.get("name")), how in ("?", "tail", "return"), "fallible step is propagated (exit non-zero)", found=how, sp=node.get("sp"))
+            if how == "closure-result":
+                # `let step = || fallible(..);` ... `step()?`: the result is propagated where the closure is called
+                clo = [p_ for p_ in ps if p_.get("k") == "Closure"][-1]
+                hid_ = None
+                for n2, ps2 in common.hir_walk_p(body["hir"]):
+                    if n2.get("k") == "Let" and n2.get("init") is clo and (n2.get("pat") or {}).get("k") == "Binding":
+                        hid_ = n2["pat"].get("hid")
+                uses = [(n2, ps2) for n2, ps2 in common.hir_walk_p(body["hir"]) if n2.get("k") == "Call" and (n2.get("f") or {}).get("k") == "Path" and (n2.get("f") or {}).get("hid") == hid_] if hid_ is not None else []
+                if uses and all(c01._consumed(n2, ps2) in ("?", "tail", "return") for n2, ps2 in uses):
+                    how = "?"
+            rep.ob("C18.order", key + "|propagated|" + (node.get("callee") or node.get("name") or "<closure call>"), how in ("?", "tail", "return"), "fallible step is propagated (exit non-zero)", found=how, sp=node.get("sp"))
     for ob_, call_bid in outer:
         # the delegating call's result must itself be propagated by the outer function
         for node, ps in common.hir_walk_p(ob_["hir"]):
